@@ -657,6 +657,38 @@ def part_registration(cx):
                 if C.is_remote_registration_enabled() != expected_enabled:
                     cx.viol("is_remote_registration_enabled disagrees with the enable/disable history",
                             "history %r: flag %r" % (list(hist), C.is_remote_registration_enabled()), w)
+    # hostile / malformed payloads while registration is not enabled must be refused without side effects
+    import pickle
+
+    class _Hostile:
+        def __reduce__(self):
+            return (C.enable_remote_registration, ())
+
+    for payload_name, payload in (("malformed", b"Bnot-a-pickle"), ("empty", b"B"),
+                                  ("pickle_with_side_effect", b"B" + pickle.dumps(_Hostile())),
+                                  ("base64_side_effect", b"E" + base64.urlsafe_b64encode(b"B" + pickle.dumps(_Hostile())))):
+        vocab.register_all()
+        C._remote_registration = False
+        w = {"kind": "registration", "history": [], "method": "POST", "payload": payload_name}
+        cx.out["evaluations"] += 1
+        cx.count("registration.hostile")
+        try:
+            client.post("/liquer/api/register_command/", data=payload)
+        except Exception:
+            pass
+        if C.is_remote_registration_enabled():
+            cx.viol("a payload sent while registration is not enabled switched registration on",
+                    "payload %s: is_remote_registration_enabled() is True afterwards" % payload_name, w)
+            C._remote_registration = False
+            continue
+        n += 1
+        name = "remote_cmd_%d" % n
+        ns = {}
+        exec("def %s(x=1):\n    return 'remote:%d'\n" % (name, n), ns)
+        md = command_metadata_from_callable(ns[name], has_state_argument=False, attributes={"ns": "root"})
+        r = client.post("/liquer/api/register_command/", data=CommandRegistry.encode_registration(ns[name], md))
+        if (r.get_json(silent=True) or {}).get("status") == "OK":
+            cx.viol("remote registration accepted while registration is not enabled", "after payload %s" % payload_name, w)
     C._remote_registration = False
     cx.out["samples"].append({"part": "registration", "histories": n})
 
